@@ -397,6 +397,10 @@ def _delivers(rep, prog, rd):
         raise AnalysisBroken('READER.delivers: definition of %s not found' % calls[0][1])
     v, culprits = _Pred(prog, rep).fn(fs[0])
     ok = v is True
+    if not ok and not culprits:
+        rep.cannot_decide('READER.delivers', where(fs[0], fs[0]['l']), '%s() does not return through tests and literals only; its '
+                          'value under the premises (time set, particles valid) is not determined' % calls[0][1])
+        return
     rep.add('READER.delivers', '%s' % calls[0][1], where(fs[0], culprits[0][0] if culprits else fs[0]['l']),
             '%s() holds for every timed event whose particles are valid (the loop predicate of load_next_event, line %d)'
             % (calls[0][1], b.line), ok,
